@@ -245,6 +245,75 @@ def toU8SpecOk (bits : UInt32) (out : Int) : Bool :=
       let e := p * ratPow2 (-23)
       isU8 out && (out : Rat) ≤ p + e && p - e < (out : Rat) + 1
 
+/-! ### gamma conversion: `powf` is a parameter of the model (libm), represented by Lean's binary64
+`Float.pow` on the exact f32 constants; compared within 2e-6 relative (f32 rounding is 6e-8) -/
+
+def ratToFloat (q : Rat) : Float := Float.ofInt q.num / Float.ofNat q.den
+
+/-- `GAMMA: f32 = 2.2` and `INV_GAMMA: f32 = 1.0 / GAMMA` as the f32 values the code uses. -/
+def gammaF32 : Rat := F32.toRatD (F32.ofRat gamma)
+def invGammaF32 : Rat := F32.toRatD (F32.ofRat (1 / gammaF32))
+
+def powModel (x e : Rat) : Float := Float.pow (ratToFloat x) (ratToFloat e)
+
+def closeF (impl : Rat) (model : Float) : Bool :=
+  let d := (ratToFloat impl - model).abs
+  d ≤ 2e-6 * model.abs + 1e-37
+
+/-- round-trip tolerance of to_srgb ∘ to_linear and back: the two exponents multiply to 1 ± 2^-23, so
+x^(1+δ) − x ≤ δ·max|x ln x| ≈ 4.4e-8; the intermediate and final f32 roundings add < 2.5e-7·x.
+1e-6 leaves a factor 3 (observed maximum on the real code: 6e-8). -/
+def gammaRtTol : Rat := 1 / 1000000
+
+def handleFGamma (xs : List Rat) (impl : List String) : Verdict :=
+  match xs, rats? impl with
+  | [x0, x1, x2], some [l0, l1, l2, s0, s1, s2, a0, a1, a2, b0, b1, b2] =>
+    let inR := Spec.Color.inUnit3 x0 x1 x2
+    let xl := [(x0, l0, s0, a0, b0), (x1, l1, s1, a1, b1), (x2, l2, s2, a2, b2)]
+    let v := Verdict.ok [if xs.any (· == 0) || xs.any (· == 1) then "gamma-endpoint" else "gamma-inside"]
+    -- correspondence with the pow model
+    let v := v.withDiff (!(xl.all fun (x, l, s, _, _) => closeF l (powModel x gammaF32) && closeF s (powModel x invGammaF32)))
+      s!"to_linear/to_srgb differ from pow(x, 2.2f) / pow(x, 1/2.2f): {impl.take 6}"
+    -- spec on the implementation's numbers only
+    let v := v.withSpec (inR && !(xl.all fun (x, l, s, _, _) => (x != 0 || (l == 0 && s == 0)) && (x != 1 || (l == 1 && s == 1))))
+      "gamma-fixpoint" "to_linear / to_srgb do not fix 0 and 1"
+    let v := v.withSpec (inR && !(xl.all fun (x, l, s, _, _) => 0 ≤ l && l ≤ x && x ≤ s && s ≤ 1))
+      "gamma-range" s!"expected 0 <= to_linear(x) <= x <= to_srgb(x) <= 1: {impl.take 6}"
+    let slack : Rat := 1 + ratPow2 (-23)
+    let mono := xl.all fun (x, l, s, _, _) => xl.all fun (y, l', s', _, _) => !(x < y) || (l ≤ l' * slack && s ≤ s' * slack)
+    let v := v.withSpec (inR && !mono) "gamma-not-monotone" s!"inputs {xs.map ratApprox} -> {impl.take 6}"
+    v.withSpec (inR && !(xl.all fun (x, _, _, a, b) => closeR a x gammaRtTol && closeR b x gammaRtTol))
+      "gamma-roundtrip" s!"to_srgb(to_linear(x)) or to_linear(to_srgb(x)) off by more than 1e-6: {impl.drop 6}"
+  | _, _ => (Verdict.mkDiff "non-finite or malformed fgamma output").withSpec true "gamma-not-finite" s!"{impl}"
+
+def okOr {β : Type} (d : β) : Outcome β → β
+  | .ok v => v
+  | .panic _ => d
+
+/-- the 17 (8-bit) accessor/gray tokens of a colour with channels `c` (4 of them), via the model -/
+def accModel {β : Type} (c : List β) (d : β) : List β :=
+  let c3 := c.take 3
+  let at_ (l : List β) (i : Nat) := okOr d (channel l i)
+  [at_ c3 idxR, at_ c3 idxG, at_ c3 idxB, at_ c idxR, at_ c idxG, at_ c idxB, at_ c idxA,
+   at_ c3 idxH, at_ c3 idxS, at_ c3 idxL, at_ c idxH, at_ c idxS, at_ c idxL, at_ c idxA] ++ grayC (c.getD 0 d)
+
+def accNames : List String :=
+  ["rgb.r", "rgb.g", "rgb.b", "rgba.r", "rgba.g", "rgba.b", "rgba.a", "hsl.h", "hsl.s", "hsl.l",
+   "hsla.h", "hsla.s", "hsla.l", "hsla.a", "gray[0]", "gray[1]", "gray[2]"]
+
+/-- documented channel of each accessor, as positions in the case's channel list (spec side) -/
+def accSpecIdx : List Nat := [0, 1, 2, 0, 1, 2, 3, 0, 1, 2, 0, 1, 2, 3, 0, 0, 0]
+
+def firstMismatch (names : List String) (impl spec : List String) : Option String :=
+  ((names.zip (impl.zip spec)).find? fun (_, (i, w)) => i != w).map fun (n, (i, w)) => s!"{n} returned {i}, documented channel holds {w}"
+
+def dsubLoop : Nat → Nat → UInt64 → UInt64
+  | 0, _, h => h
+  | n + 1, i, h =>
+    let a : Int := (i / 256 : Nat); let b : Int := (i % 256 : Nat)
+    let diff := subColor [b, a, b] [a, b, 255 - a]
+    dsubLoop n (i + 1) (diff.foldl (fun h x => mix h (UInt32.ofNat (x % 4294967296).toNat)) h)
+
 def handle (case impl : List String) : Verdict :=
   match case with
   | ["rgb2hsl", r, g, b] =>
@@ -425,6 +494,47 @@ def handle (case impl : List String) : Verdict :=
       let v := v.withSpec (impl.getD 1 "" != "0") "sat-add-wrong" s!"{impl.getD 1 ""} sums in the block are not saturated"
       v.withSpec (impl.getD 2 "" != "0") "sat-add-i32-overflow" s!"{impl.getD 2 ""} additions in the block panic"
     | _, _ => bad "dadd"
+  | ["acc8", w] =>
+    match parseHex? w with
+    | some n =>
+      let c : List String := [n / 16777216 % 256, n / 65536 % 256, n / 256 % 256, n % 256].map toString
+      let v := (Verdict.ok ["acc8"]).withDiff (impl != accModel c "?") s!"model {accModel c "?"}"
+      let spec := accSpecIdx.map fun i => c.getD i "?"
+      match firstMismatch accNames impl spec with
+      | some m => v.withSpec true "accessor-wrong-channel" m
+      | none => v.withSpec (impl.length != 17) "accessor-wrong-channel" "malformed output"
+    | none => bad "acc8"
+  | "facc" :: cs =>
+    if cs.length != 4 then bad "facc" else
+    let z := "00000000"
+    let want := accModel cs "?" ++ (rgbaToRgb (cs.getD 0 "") (cs.getD 1 "") (cs.getD 2 "") (cs.getD 3 "") |> fun (a, b, c) => [a, b, c])
+      ++ (zeroColor (β := Nat) 3 ++ zeroColor (β := Nat) 4).map fun _ => z
+    let v := (Verdict.ok ["facc"]).withDiff (impl != want) s!"model {want}"
+    let spec := accSpecIdx.map fun i => cs.getD i "?"
+    let v := match firstMismatch accNames (impl.take 17) spec with
+      | some m => v.withSpec true "accessor-wrong-channel" m
+      | none => v
+    let v := v.withSpec ((impl.drop 17).take 3 != cs.take 3) "rgba-to-rgb" "Color4f::to_rgb does not keep r, g, b bit for bit"
+    v.withSpec (impl.drop 20 != List.replicate 7 z) "zero-not-zero" s!"Linear::zero() is not all +0.0: {impl.drop 20}"
+  | "sub3" :: rest | "sub4" :: rest =>
+    match ints? rest, ints? impl with
+    | some xs, some out =>
+      let n := xs.length / 2
+      let cs := xs.take n; let ds := xs.drop n
+      let diff := subColor ds cs
+      let sat := (addColor cs diff) != ds
+      let v := (Verdict.ok [if sat then "sub-add-saturates" else "sub-add-exact"]).withDiff (out != diff ++ addColor cs diff) s!"model {diff ++ addColor cs diff}"
+      let v := v.withSpec (out.take n != (ds.zip cs).map fun (d, c) => d - c) "sub-wrong" s!"d.sub(c) is not d - c per channel: {out.take n}"
+      v.withSpec (out.drop n != ds) "sub-add-not-inverse" s!"c.add(d.sub(c)) = {out.drop n}, expected d = {ds}"
+    | _, _ => bad "sub"
+  | ["dsub"] =>
+    let h := dsubLoop 65536 0 fnvInit
+    let v := (Verdict.ok ["dsub"]).withDiff (impl.getD 0 "" != hex16 h) s!"digest: model {hex16 h}"
+    v.withSpec (impl.getD 1 "" != "0") "sub-wrong" s!"{impl.getD 1 ""} of the 2^16 channel pairs: difference wrong or adding it back is not the identity"
+  | "fgamma" :: cs =>
+    match rats? cs with
+    | some xs => handleFGamma xs impl
+    | none => bad "fgamma"
   | _ => bad "unknown op"
 
 end Retro.Drv.C16
